@@ -17,6 +17,7 @@ import (
 	quic "github.com/refraction-networking/uquic"
 	"github.com/refraction-networking/uquic/internal/verifmc/explore"
 	"github.com/refraction-networking/uquic/internal/verifmc/sim"
+	"github.com/refraction-networking/uquic/internal/verifmc/wiremon"
 	tls "github.com/refraction-networking/utls"
 )
 
@@ -304,6 +305,10 @@ func c02Run(t *testing.T, cfg c02Config) c02Outcome {
 		w.ServerTr.Close()
 		w.CloseEndpoints()
 		<-srvDone
+		if mon := wiremon.Analyze(w.Router.FullLog(), w.KeyLog.Lines(), wiremon.Params{}); len(mon.Findings) > 0 && out.fail == nil {
+			out.suffix = ":" + mon.Findings[0].Key
+			out.fail = explore.Failf(id+out.suffix, "%s server=%s history=%s: %s", id, srv.Name, cfg.History, mon.Findings[0].What)
+		}
 		out.ndgram = w.Router.Count(sim.C2S) + w.Router.Count(sim.S2C)
 		out.transcript = w.Router.Transcript()
 	})
